@@ -16,7 +16,8 @@ The same oracle judges a Dask stream: the five public functions on Dask-backed r
 functions accept -- not through a NumPy-vs-Dask comparison (that is C01's subject).
 Layer T3: stream `il:convolve2d` -- the ILang program `Gen.IL.convolve2d` (generated statement by statement from
 `_convolve_2d_numpy`; the subject of the refinement theorems `il_convolve_refines` / `il_conv_cell` / `il_conv_finite`) is run by
-the Lean driver and compared exactly with the numba-compiled function of /repo (il_corr.py).
+the Lean driver and compared exactly with the numba-compiled function of /repo (il_corr.py); streams `il:meanNumpy`,
+`il:applyMean` ... `il:applyVar` do the same for the generated programs of `_mean_numpy` / `_apply_numpy` (translator validation only).
 """
 import json
 import math
@@ -872,6 +873,10 @@ def run(r, scale=1):
     # layer T3: the generated ILang program of `_convolve_2d_numpy` (subject of il_convolve_refines) against the numba
     # function: result array and both inputs after the call, compared exactly on exactly computable inputs
     il_corr.stream(r, ["convolve2d"], (600 if r.tier == "quick" else 6000) * scale)
+    # the other focal programs of layer T3 (`_mean_numpy`, `_apply_numpy` bound to each of the seven statistic functions):
+    # translator validation only -- no refinement theorem yet, the model of Part A/B is tied to them by G + H above
+    il_corr.stream(r, ["meanNumpy", "applyMean", "applySum", "applyMin", "applyMax", "applyRange", "applyStd", "applyVar"],
+                   (100 if r.tier == "quick" else 1000) * scale)
     r.trusted += ["numba / numpy (np.nanmean, np.nansum, np.nanmin, np.nanmax, np.nanstd, np.nanvar are modelled by hand and "
                   "validated by the correspondence run)", "xarray DataArray construction"]
     r.assumptions += ["exact field arithmetic in the value theorems (float32 rounding covered by the correspondence run only)",
@@ -887,7 +892,7 @@ def search(r):
 
 def replay(r, body):
     c = body["case"]
-    if "prog" in c:                       # a case of the il:convolve2d stream (translator validation, layer T3)
+    if "prog" in c:                       # a case of an il:<prog> stream (translator validation, layer T3)
         bad = il_corr.replay_case(c)
         print("still disagrees" if bad else "does not fail on the current tree")
         return bad
